@@ -24,6 +24,7 @@ type apiIn struct {
 	States  [][]int  `json:"states"`  // stored subsets (indices into def.U)
 	Queries []jtuple `json:"queries"` // subject ["none"] = no subject
 	Depths  []int    `json:"depths"`
+	GDepth  int      `json:"gdepth"`  // limit.max_read_depth of the server (default 8)
 	Batches [][]int  `json:"batches"` // 1-based indices into queries
 	MaxB    int      `json:"maxbatch"`
 }
@@ -61,7 +62,10 @@ func famAPI(t *testing.T) {
 	out := newNDWriter(*fOut)
 	defer out.close()
 	si, sn := shard()
-	reg := newRegistry(t, regOpts{opl: in.Def.Cfg.opl(), gdepth: 8})
+	if in.GDepth == 0 {
+		in.GDepth = 8
+	}
+	reg := newRegistry(t, regOpts{opl: in.Def.Cfg.opl(), gdepth: in.GDepth})
 	// the batch size limit is configuration
 	if err := reg.Config(context.Background()).Set("limit.max_batch_check_size", in.MaxB); err != nil {
 		t.Fatal(err)
